@@ -611,7 +611,10 @@ impl Check for C07 {
             }
             // negotiated allocation: what the server has outstanding towards this client never exceeds the
             // max_receive_alloc the client advertised (fragment-rounded), judged from the wire alone
-            if connected && server_connects.get(&a).copied().unwrap_or(0) == 1 {
+            // (not where a forger who knew a genuine nonce took part in the handshake: the limits the server holds may
+            // then be the forger's - found by the thorough tier: a forged SYN with limits of its own opened the attempt
+            // before the client started, and a forged ACK carrying the server's nonce completed it)
+            if connected && server_connects.get(&a).copied().unwrap_or(0) == 1 && !on_path.contains(&a) {
                 let sconn_seq = w.server_events.iter().find(|(_, _, e)| matches!(e, SEv::Connect(x) if x == &a)).map(|p| p.0).unwrap_or(0);
                 if let Some(snonce) = obs.server_synack.get(&a).and_then(|v| v.iter().filter(|p| p.1 < sconn_seq).last()).map(|p| p.0) {
                     let limit = crate::props::c06::ceil_frag(c.clients[k].cfg.to_endpoint().max_receive_alloc.min(u32::MAX as usize)) as u64;
